@@ -155,6 +155,11 @@ func decodeAddressDataReq(addressData *addressDataReq) (*AddressDataRequest, err
 }
 
 func (h *Handler) handleQuery(r *http.Request, w http.ResponseWriter, query *addressbookQuery) error {
+	selection := internal.PropFind{Prop: query.Prop, AllProp: query.AllProp, PropName: query.PropName}
+	if err := selection.Validate(); err != nil {
+		return err
+	}
+
 	var q AddressBookQuery
 	if query.Prop != nil {
 		var addressData addressDataReq
@@ -210,6 +215,11 @@ func (h *Handler) handleQuery(r *http.Request, w http.ResponseWriter, query *add
 }
 
 func (h *Handler) handleMultiget(ctx context.Context, w http.ResponseWriter, multiget *addressbookMultiget) error {
+	selection := internal.PropFind{Prop: multiget.Prop, AllProp: multiget.AllProp, PropName: multiget.PropName}
+	if err := selection.Validate(); err != nil {
+		return err
+	}
+
 	var dataReq AddressDataRequest
 	if multiget.Prop != nil {
 		var addressData addressDataReq
